@@ -208,11 +208,8 @@ def check(ctx):
               "in the renderers config.type_mappings is only consulted through HashMap::get (exact key); no contains/starts_with/iteration over its keys",
               "a prefix or substring match would also replace types that are not named in the mapping ('nothing else')")
     n = 0
-    for fid in sorted(reach):
-        if "type_visitor" not in fid and "schema_builder" not in fid and "templates::" not in fid:
-            continue
-        f = P.fns[fid]
-        reads = False
+
+    def reads_mappings(f):
         for blk in f.blocks:
             for st in blk["stmts"]:
                 rv = st.get("rv")
@@ -222,27 +219,39 @@ def check(ctx):
                 elif rv and rv["k"] == "use":
                     pl = op_place(rv["op"])
                 if pl and any(p.get("name") == "type_mappings" for p in pl.get("p", []) if p["k"] == "field"):
-                    reads = True
-        if not reads:
+                    return True
+        return False
+    roots = sorted({fid.split("::{closure")[0] for fid in reach if ("type_visitor" in fid or "schema_builder" in fid or "templates::" in fid)})
+    for root in roots:
+        members = [k for k in (P.family(root) if root in P.fns else []) if "{promoted" not in k and k in reach]
+        if not any(reads_mappings(P.fns[k]) for k in members):
             continue
         n += 1
-        for c in f.calls:
-            recv = f.describe_origin(f.origin(c.args[0]), deep=2) if c.args else ""
-            if "type_mappings" in recv and "HashMap" in (c.path + (c.self_ty or "")):
-                if not short_path(c.path).startswith("HashMap::") and c.name in ("as_ref", "as_deref", "branch", "from_residual", "is_some", "is_none", "clone", "cloned", "and_then", "map", "unwrap_or", "unwrap_or_default", "ok_or", "ok_or_else", "deref"):
-                    continue        # reaching the Option<HashMap> itself (`.as_ref()?`, `.and_then(..)`): not a lookup in the map
-                if short_path(c.path) == "HashMap::get":
-                    # ... with the type's own name as the key: the function's name parameter or the payload of TypeStructure::Custom, unaltered
-                    # (a key that was split / trimmed / re-cased first no longer finds `DateTime<Utc>`-style entries, or finds entries of other types)
-                    ko = f.origin(c.args[1]) if len(c.args) > 1 else ("unknown",)
-                    while ko[0] == "proj" or (ko[0] == "call" and ko[1].args and strip_generics(ko[1].path) in ("std::ops::Deref::deref", "std::string::String::as_str", "std::convert::AsRef::as_ref", "std::borrow::Borrow::borrow")):
-                        ko = ko[1] if ko[0] == "proj" else f.origin(ko[1].args[0])
-                    if ko[0] == "arg":
-                        r3.ok("%s: type_mappings.get(<the type's name>)" % short_path(fid))
+        for fid in members:
+            f = P.fns[fid]
+            in_closure = "::{closure" in fid
+            for c in f.calls:
+                if c.bb not in f.reach_blocks:
+                    continue
+                recv = f.describe_origin(f.origin(c.args[0]), deep=2) if c.args else ""
+                # inside a closure of such a function the map arrives as the closure's parameter (`.and_then(|mappings| mappings.get(name))`)
+                is_map = ("type_mappings" in recv) or (in_closure and short_path(c.path).startswith("HashMap::") and c.generics[:2] == ["std::string::String", "std::string::String"])
+                if is_map and "HashMap" in (c.path + (c.self_ty or "")):
+                    if not short_path(c.path).startswith("HashMap::") and c.name in ("as_ref", "as_deref", "branch", "from_residual", "is_some", "is_none", "clone", "cloned", "and_then", "map", "unwrap_or", "unwrap_or_default", "ok_or", "ok_or_else", "deref"):
+                        continue        # reaching the Option<HashMap> itself (`.as_ref()?`, `.and_then(..)`): not a lookup in the map
+                    if short_path(c.path) == "HashMap::get":
+                        # ... with the type's own name as the key: the function's name parameter or the payload of TypeStructure::Custom, unaltered
+                        # (a key that was split / trimmed / re-cased first no longer finds `DateTime<Utc>`-style entries, or finds entries of other types)
+                        ko = f.origin(c.args[1]) if len(c.args) > 1 else ("unknown",)
+                        while ko[0] == "proj" or (ko[0] == "call" and ko[1].args and strip_generics(ko[1].path) in ("std::ops::Deref::deref", "std::string::String::as_str", "std::convert::AsRef::as_ref", "std::borrow::Borrow::borrow")):
+                            ko = ko[1] if ko[0] == "proj" else f.origin(ko[1].args[0])
+                        # in a closure the name is a captured variable of the enclosing function: a field of the closure environment (argument 1)
+                        if ko[0] == "arg":
+                            r3.ok("%s: type_mappings.get(<the type's name>)" % short_path(fid))
+                        else:
+                            r3.bad(V(r3.id, fid, "mapping-key-derived", "the key looked up in type_mappings is not the type's name itself but %s" % f.describe_origin(ko, deep=2)[:120], c.file, c.line))
                     else:
-                        r3.bad(V(r3.id, fid, "mapping-key-derived", "the key looked up in type_mappings is not the type's name itself but %s" % f.describe_origin(ko, deep=2)[:120], c.file, c.line))
-                else:
-                    r3.bad(V(r3.id, fid, "mapping-access:%s" % short_path(c.path), "type_mappings is consulted through %s (not an exact-key lookup)" % c.path, c.file, c.line))
+                        r3.bad(V(r3.id, fid, "mapping-access:%s" % short_path(c.path), "type_mappings is consulted through %s (not an exact-key lookup)" % c.path, c.file, c.line))
     r3.require_floor(3, "mapping lookups")
     rules.append(r3)
 
